@@ -194,7 +194,7 @@ def run(tier, seed):
             chk.violation("verification modified the caller's credential dict", f"dict-mutated-reg {label.split('/')[0]}", {"before": d0, "after": repr(d)[:500]})
         chk.count("reg:" + ("accepted" if base.startswith("OK") else "rejected"))
     A.close(); B.close()
-    fw.env_invariance(chk, "auth")          # the same seeded cases under -O / -OO, warnings-as-errors, other TZ / locale, a private CA bundle
+    fw.env_invariance(chk, "auth", "reg")          # the same seeded cases under -O / -OO, warnings-as-errors, other TZ / locale, a private CA bundle
     return fw.finish(chk, ob, br, TRUSTED,
                      ["forms are compared on the outcome line (result fields / exception class bucket); for memoryview inputs the echoed credential_id is the object that was passed",
                       "rejections may differ in exception class between forms only where both are rejections (e.g. record form of a credential whose type member is wrong)"],
